@@ -412,7 +412,8 @@ PROPERTY_REGIONS = {
     "C15": (("client::udp_client::", "server::udp_proxy::"), (), ("session::stream_reader::StreamReader::buffer_len", "session::stream_reader::StreamReader::is_eof")),
     "C16": (("client::socks5::",), (), ()),
     "C17": (("client::http_proxy::",), (), ()),
-    "C18": (("util::cert_reloader::", "server::server::Server::listen", "util::tls::"), (), ("util::cert_reloader::CertReloader::reload",)),
+    "C18": (("util::cert_reloader::", "server::server::Server::listen", "util::tls::"), (), ("util::cert_reloader::CertReloader::reload",
+            "util::tls::create_server_config", "util::tls::create_server_config_from_files")),      # who may ask for a generated (self-signed) certificate: the start-up code of the binary, never a loader or reloader
     "C19": (("padding::factory::PaddingFactory::update_default", "padding::factory::PaddingFactory::default", "padding::factory::PaddingFactory::pushed", "padding::factory::PaddingFactory::new",
              "client::client::Client::create_new_session"), ("UpdatePaddingScheme", "Settings", "ServerSettings"), ("padding::factory::PaddingFactory::update_default",)),
     "C20": ((SS + "recv_loop", SS + "handle_frame"), ("Waste", "Syn", "Push", "Fin", "Settings", "Alert", "UpdatePaddingScheme", "SynAck", "HeartRequest", "HeartResponse", "ServerSettings"), ()),
